@@ -1209,9 +1209,9 @@ class Client:
                     result[key_value[1]] = b" ".join(key_value[2:])
                 else:
                     raise MemcacheUnknownError(line[:32])
-        except Exception:
+        except BaseException as e:
             self.close()
-            if self.ignore_exc:
+            if self.ignore_exc and isinstance(e, Exception):
                 return {}
             raise
 
@@ -1297,7 +1297,7 @@ class Client:
                 else:
                     raise MemcacheUnknownError(line[:32])
             return results
-        except Exception:
+        except BaseException:
             self.close()
             raise
 
@@ -1341,7 +1341,7 @@ class Client:
                 results.append(line)
             return results
 
-        except Exception:
+        except BaseException:
             self.close()
             raise
 
